@@ -73,7 +73,7 @@ func cases(tier string) int {
 	if tier == "thorough" {
 		return nDirected + 160000
 	}
-	return nDirected + 2000
+	return nDirected + 8000
 }
 
 func TestCheck(t *testing.T) {
